@@ -219,6 +219,18 @@ def apply_op(ctx, st, op, case):
                 del st.stored[txid]
             st.spent = {k: v for k, v in st.spent.items() if v not in gone}
             st.flags.add('remove_unconfirmed')
+        elif name == 'restore':
+            # a stored sent transaction is read back from the database and written again (store(), or send() as a
+            # re-broadcast): nothing changes - in particular outputs of it that later transactions consumed stay spent
+            if st.stored:
+                order = [x for x in st.sent if x in st.stored]
+                txid = order[op['pick'] % len(order)]
+                t = w.transaction(txid)
+                if op.get('how') == 'send':
+                    t.send(broadcast=True)
+                else:
+                    t.store()
+                st.flags.add('reloaded_transaction_stored_again')
         elif name == 'delete':
             if st.stored:
                 if 'last' in op:
@@ -416,6 +428,8 @@ def _strategy(ctx):
         st.fixed_dictionaries({'op': st.just('delete_received'), 'pick': st.integers(0, 5),
                                'all': st.sampled_from([False, True, True])}),
         st.just({'op': 'remove_unconfirmed'}),
+        st.fixed_dictionaries({'op': st.just('restore'), 'pick': st.integers(0, 3), 'how': st.sampled_from(['store', 'send'])}),
+        st.fixed_dictionaries({'op': st.just('restore'), 'pick': st.just(0), 'how': st.sampled_from(['store', 'send'])}),
         st.just({'op': 'new_account'}), st.just({'op': 'new_account', 'fundable': True}),
         st.fixed_dictionaries({'op': st.just('sweep_account'), 'pick': st.integers(0, 3)}),
         st.just({'op': 'reopen'}), st.just({'op': 'second_reader'}),
